@@ -109,9 +109,11 @@ func (g *frameGen) cemiMessage() cemi.Message {
 	if e.Choose("wl.tpdu", 5) == 0 {
 		ld.Data = &cemi.ControlData{Numbered: e.Choose("wl.num", 2) == 1, SeqNumber: uint8(e.Choose("wl.tseq", 16)), Command: uint8(e.Choose("wl.ccmd", 4))}
 	} else {
-		n := []int{1, 1, 2, 3, 15, 16, 100, 254}[e.Choose("wl.applen", 8)]
+		n := []int{1, 1, 2, 3, 15, 16, 100, 254, 0}[e.Choose("wl.applen", 9)]
 		d := g.bytes("wl.appb", n)
-		d[0] &= 0x3f
+		if n > 0 {
+			d[0] &= 0x3f
+		}
 		ld.Data = &cemi.AppData{Numbered: e.Choose("wl.num", 2) == 1, SeqNumber: uint8(e.Choose("wl.tseq", 16)), Command: cemi.APCI(e.Choose("wl.apci", 16)), Data: d}
 	}
 	switch e.Choose("wl.cemikind", 8) {
@@ -190,7 +192,8 @@ func (g *frameGen) valid(router bool) genFrame {
 		raw = mkFrame(svcConnStateRes, []byte{ch, 0}) // the 8-byte minimum
 	case "sized":
 		// total lengths around the points where the 16-bit length field carries into its high octet
-		total := []int{255, 256, 257, 258, 259, 260, 261, 262, 511, 512, 513, 517, 518, 767, 768, 770}[e.Choose("wl.sized", 16)]
+		// (... and the size of the receiver's buffer, 1024, which a frame may fill exactly)
+		total := []int{255, 256, 257, 258, 259, 260, 261, 262, 511, 512, 513, 517, 518, 767, 768, 770, 1000, 1023, 1024, 1024}[e.Choose("wl.sized", 20)]
 		b := cemi.LBusmonInd(g.bytes("wl.sizedb", 8))
 		b = append(b, make([]byte, total-7-8)...)
 		for j := 8; j < len(b); j += 31 {
@@ -302,6 +305,7 @@ func minInt(a, b int) int {
 
 type sockRun struct {
 	e        *Env
+	sendWant map[string]int // encodings of the values handed to Send -> how often
 	wf       map[string]string
 	c        sockCfg
 	sock     knxnet.Socket
@@ -350,7 +354,7 @@ func runSocket(e *Env, hostile bool) {
 			e.F.SetLink(a, b, lnk)
 		}
 	}
-	r := &sockRun{e: e, c: c}
+	r := &sockRun{e: e, c: c, sendWant: map[string]int{}}
 	gen := &frameGen{e: e, wellFormed: map[string]string{}}
 	r.wf = gen.wellFormed
 	s := e.S
@@ -377,11 +381,24 @@ func runSocket(e *Env, hostile bool) {
 		if err == nil {
 			r.sock = ts
 			tcpPeer, _ = lis.Accept()
+			// Some peers stop reading for a while: the client's writes then fill the window and
+			// block (a write may go out in pieces, but a Send never leaves half a frame behind).
+			stallPeer := !hostile && e.Choose("cfg.tcpstall", 4) == 0
+			if stallPeer {
+				tcpPeer.Peer().SndBuf = []int{64, 600, 4096}[e.Choose("cfg.tcpwindow", 3)]
+				e.Fault("tcp-peer-stops-reading")
+			}
 			s.Spawn("peer-rx", func() {
 				buf := make([]byte, 4096)
+				if stallPeer {
+					s.SleepFor(time.Duration(1+e.Choose("wl.tcpstallfor", 8)) * time.Second)
+				}
 				for {
 					if _, err := tcpPeer.Read(buf); err != nil {
 						return
+					}
+					if stallPeer && e.Choose("wl.tcpstallagain", 20) == 0 {
+						s.SleepFor(time.Duration(1+e.Choose("wl.tcpstallfor", 8)) * time.Second)
 					}
 				}
 			})
@@ -438,6 +455,8 @@ func runSocket(e *Env, hostile bool) {
 				case *knxnet.SearchRes, *knxnet.DescriptionRes:
 					continue // the library cannot encode these (its Pack panics): not sendable
 				}
+				// what has to appear on the wire: the same value packed into a fresh, zeroed buffer
+				r.sendWant[string(knxnet.AllocAndPack(pk))]++
 				if err := r.sock.Send(pk); err != nil {
 					r.sendErrs++
 				} else {
@@ -747,6 +766,11 @@ func checkSocket(r *sockRun, badHeader bool) {
 			continue
 		}
 		writes++
+		if r.sendWant[string(rec.Data)] > 0 {
+			r.sendWant[string(rec.Data)]--
+		} else if ok, _ := headerOK(rec.Data); ok {
+			e.Violate("C16", "send-bytes-differ", "a Send put %d bytes on the network that are not the encoding of any value handed to Send (stale or foreign octets in the frame): %x", len(rec.Data), clipBytes(rec.Data))
+		}
 		if ok, _ := headerOK(rec.Data); !ok {
 			e.Violate("C16", "send-not-one-frame", "a Send handed %d bytes to the network that are not one complete frame: %x", len(rec.Data), clipBytes(rec.Data))
 		}
